@@ -33,7 +33,7 @@ PAIRS = (("sqlite", "duckdb"), ("duckdb", "sqlite"), ("sqlite", "sqlite"), ("duc
 
 @st.composite
 def cases(draw, depth):
-    k = draw(st.integers(0, 9))
+    k = draw(st.integers(0, 10))
     tables = draw(queries.tables())
     tables["w"] = [[draw(st.integers(0, 3)), draw(st.sampled_from(TS_VALUES))] for _ in range(draw(st.integers(0, 4)))]
     if k < 6:
@@ -44,6 +44,19 @@ def cases(draw, depth):
     q = queries.Q(draw, "common", depth)
     feats = set()
     only = None
+    if k == 10:
+        # REAL division (both engines agree on it, integer division they do not): SQLite yields NULL for a zero divisor, so the
+        # SQLite -> DuckDB text has to guard EVERY division of a multiplicative chain, wherever it sits in the chain
+        t1 = draw(st.sampled_from(("t", "u", "v")))
+        c = [f"x1.{n}" for n, ty in queries.SCHEMA[t1] if ty == "int"]
+        a, b = c[0], c[-1]
+        chain = draw(st.sampled_from(("CAST({a} AS DOUBLE) / {b} * 2", "CAST({a} AS DOUBLE) / {b} / 2", "2 * CAST({a} AS DOUBLE) / {b}", "CAST({a} AS DOUBLE) / {b} * {a} / 3", "(CAST({a} AS DOUBLE) / {b}) + 1", "CAST({a} AS DOUBLE) / ({b} - 1) * 4"))).format(a=a, b=b)
+        feats |= {"real-division", "div:chain"}
+        where = draw(st.sampled_from(("", f" WHERE ({chain}) IS NULL", f" WHERE {b} = 0 OR {a} > 0")))
+        sql = f"SELECT {a} AS o0, {chain} AS o1 FROM {t1} AS x1{where}"
+        if not any(r[[n for n, _ in queries.SCHEMA[t1]].index(b.split(".")[1])] == 0 for r in tables[t1]):
+            tables[t1] = tables[t1] + [[(0 if ty == "int" else "a") for _, ty in queries.SCHEMA[t1]], [(1 if ty == "int" else "b") for _, ty in queries.SCHEMA[t1]]]
+        return {"sql": sql, "tables": tables, "features": sorted(feats), "ordered": False, "ncols": 2, "types": ["int", "float"], "dialect_only": "sqlite"}
     if k == 6:
         # strftime over the timestamp table; SQLite spelling is the source text when src=sqlite, DuckDB spelling otherwise
         fmt = draw(st.sampled_from(FMT))
